@@ -17,6 +17,7 @@ RULE = ("every charge pattern over {+,-,0} of length 1..Lmax (quick 11, thorough
         "SequenceParameters(seq).get_delta(); distinct = distinct charge pattern; non-trivial = the pattern has a "
         "charged residue and length >= 5 (otherwise delta is 0 by definition)")
 RULE += ("; added after the mutation rounds: objects obtained through a partly frozen shuffle, from lower-case / whitespace text and around a backend object; kappa asked before delta; every value asked twice; the first cases of every shard are judged again at its end")
+RULE += ("; round 5: objects restored from pickle / copy / deepcopy; look-alike words (nucleotide strings, reading frames)")
 EXHAUSTIVE = {"quick": False, "thorough": False}
 EXHAUSTIVE_NOTE = {"quick": "charge patterns of length 1..11 enumerated completely (265,719)",
                    "thorough": "charge patterns of length 1..13 enumerated completely (2,391,483)"}
